@@ -1191,7 +1191,11 @@ class C14(Prop):
             "n_best 1..len+1 (and invalid), thresh_corr in {default,1,.9,.7,.6,.5,.3,0}, thresh_nan / "
             "thresh_mode, measure lists (kruskal, R, distance, chi2, cramerv, tschuprowt and pairs of "
             "them with thresholds), filter lists (spearman, pearson, cramerv, tschuprowt, pairs, none). "
-            "A case is non-trivial when at least one feature is returned or left out for a recorded "
+            "Boundary-directed streams: associations exactly at thresh_corr; two association measures both "
+            "computed whose rankings disagree inside the first n_best; a qualitative candidate too associated "
+            "with a kept feature that is not the last better-ranked one; iqr_measure screening "
+            "([iqr_measure, kruskal|R], thresh_iqr < 1) on discrete features whose decision depends on the "
+            "quantile interpolation rule. A case is non-trivial when at least one feature is returned or left out for a recorded "
             "reason; distinct = distinct (task, measures, filters, per-type drop reasons, #returned)")
     assumptions = ["colsample = 1.0 (colsample < 1 shuffles with the global random module: excluded)",
                    "numeric data are integers or dyadic rationals (every exact value is a Fraction); "
